@@ -186,6 +186,8 @@ def make_model_class():
         def construct_model(self):
             self.constructed += 1
             self.trace = []
+            # handles of events of earlier replications that the model still holds (action "cancel_old")
+            self.old_events = (getattr(self, "old_events", []) + self.events)[-40:]
             self.events = []
             self.reqlog = []
             self.seq = 0
